@@ -177,6 +177,7 @@ func TestCheck(t *testing.T) {
 			})
 		}
 	}
+	add("resolve/concurrent-lock-writer/n3", true, func(r *explore.Run, sc string) { resolveRaceBody(r, rep, sc, 3) })
 	add("resolve/inactive", true, func(r *explore.Run, sc string) { inactiveBody(r, rep, sc) })
 	if thorough {
 		rep.Bound("resolve_graphs", "3 slots x 5 constraints per direct dependency; 4 slots x 2 constraints per direct dependency; revision in lock or not")
